@@ -53,7 +53,7 @@ func RunCheck(o CheckOpts) int {
 	work := filepath.Join(o.Verif, "work", o.Prop)
 	os.RemoveAll(work)
 	os.MkdirAll(work, 0o755)
-	timeout := 10 * time.Second
+	timeout := 20 * time.Second
 	if o.Tier == "thorough" {
 		timeout = 60 * time.Second
 	}
